@@ -79,8 +79,9 @@ View  == mvars
 (* helpers *)
 RECURSIVE SumTo(_, _)
 SumTo(f, n) == IF n = 0 THEN 0 ELSE f[n] + SumTo(f, n - 1)
-Pow2(n) == 2 ^ n
-Mask(S, n) == SumTo([i \in 1..n |-> IF i \in S THEN Pow2(i - 1) ELSE 0], n)
+\* bit mask of a subset of 1..n (n <= 4), spelled out because it is evaluated for every output of every step
+Mask(S, n) == (IF 1 \in S THEN 1 ELSE 0) + (IF 2 \in S THEN 2 ELSE 0) + (IF 3 \in S THEN 4 ELSE 0) + (IF 4 \in S THEN 8 ELSE 0)
+ASSUME NL \in 1..4 /\ NR \in 1..4
 Monus(a, b) == IF a > b THEN a - b ELSE 0          \* saturating_sub
 B2I(b) == IF b THEN 1 ELSE 0
 
@@ -443,8 +444,9 @@ W_Stop ==           \* unlink_all (shutdown): remove_all_links, one `unlinked` p
     /\ Running
     /\ LET ps == FwdPairs(Reg0)
            us(r) == SelectSeq([l \in Lanes |-> <<"U", l>>], LAMBDA f : <<f[2], r>> \in ps)
+          \* the shutdown loop drops a failed write (`if result.is_ok()`): no remote is removed any more
        IN Finish([k |-> "stop"], RemoveAll(Reg0), [Same EXCEPT !.stopped = TRUE], {}, {}, NoSend, 0, 0,
-                 {p[2] : p \in ps}, [r \in Remotes |-> IF r \in att THEN us(r) ELSE <<>>])
+                 {}, [r \in Remotes |-> IF r \in att THEN us(r) ELSE <<>>])
 
 NextW == \/ \E l \in Lanes : W_Lane(l) \/ W_Broadcast(l) \/ W_Command(l) \/ W_LaneFailed(l)
          \/ \E l \in Lanes, r \in Remotes : W_Link(r, l) \/ W_Unlink(r, l) \/ W_EventTo(l, r)
